@@ -16,7 +16,8 @@ ID = "C06"
 LEVEL = "model_checking"
 EXHAUSTIVE = True
 RULE = ("history = (0..2 successful transfers from {expedited upload, segmented upload, expedited download, segmented "
-        "download} on other objects) + one refusal + each of the 4 successful transfers as follow-up; refusal kinds: read "
+        "download on top-level objects; download to a record member / an array member, upload of a never-written sibling "
+        "member}) + one refusal + each of the 8 successful transfers as follow-up; refusal kinds: read "
         "write-only, write read-only/const (var, record member, array member; expedited and segmented), missing index, "
         "missing sub-index (record, array), every numeric type x payload length 0..9 != width (expedited and segmented), "
         "entry without value, wrong toggle on upload segment 1/2 and download segment 1/2, ccs 7, block download; "
@@ -28,7 +29,7 @@ ASSUMPTIONS = [
     "multiplexer of an abort: the request's for initiates; the running transfer's for segment requests; for ccs 7 the request's bytes 1..3, the running transfer's or zero",
 ]
 
-PRE = ["ul_exp", "ul_seg", "dl_exp", "dl_seg"]
+PRE = ["ul_exp", "ul_seg", "dl_exp", "dl_seg", "dl_rec", "ul_rec", "dl_arr", "ul_arr"]
 
 
 def entries():
@@ -56,6 +57,13 @@ def entries():
         es.append(dict(index=0x3100, sub=s, kind="arr", name=f"a_{acc}", type="INTEGER32", access=acc, default=-7,
                        parent_name="Arr"))
         s += 1
+    # members that successful predecessor transfers write (p_*) next to siblings that are only ever read
+    es.append(dict(index=0x3000, sub=9, kind="rec", name="p_rec", type="UNSIGNED16", default=0x55AA, parent_name="Rec"))
+    es.append(dict(index=0x3000, sub=10, kind="rec", name="p_rec_sibling", type="VISIBLE_STRING", default="sibling-default",
+                   parent_name="Rec"))
+    es.append(dict(index=0x3000, sub=11, kind="rec", name="r_noval", type="UNSIGNED16", default=None, parent_name="Rec"))
+    es.append(dict(index=0x3100, sub=5, kind="arr", name="p_arr", type="INTEGER32", default=-5, parent_name="Arr"))
+    es.append(dict(index=0x3100, sub=6, kind="arr", name="p_arr_sibling", type="INTEGER32", default=-6, parent_name="Arr"))
     for k, t in enumerate(codec.INT_TYPES + ["REAL32", "REAL64"]):
         es.append(dict(index=0x2100 + k, name="n_" + t, type=t, default=1))
     es.append(dict(index=0x2200, name="noval_num", type="UNSIGNED16", default=None))
@@ -94,6 +102,7 @@ def refusals():
     out.append(("read-missing-sub-arr0", "upload", dict(key=(0x3100, 0)), None))   # sub 0 exists: not a refusal (control)
     out.append(("read-noval-num", "upload", dict(key=(0x2200, 0)), {cia301.ABORT_RESOURCE, cia301.ABORT_NO_DATA}))
     out.append(("read-noval-str", "upload", dict(key=(0x2201, 0)), {cia301.ABORT_RESOURCE, cia301.ABORT_NO_DATA}))
+    out.append(("read-noval-rec-member", "upload", dict(key=(0x3000, 11)), {cia301.ABORT_RESOURCE, cia301.ABORT_NO_DATA}))
     for k, t in enumerate(codec.INT_TYPES + ["REAL32", "REAL64"]):
         w = (codec.int_info(t)[0] // 8) if t in codec.INT_TYPES else (4 if t == "REAL32" else 8)
         for L in range(0, 10):
@@ -120,8 +129,8 @@ REFUSALS = refusals()
 
 
 def bounds(tier):
-    return {"refusal_kinds": len(REFUSALS), "predecessor_histories": "length 0..2 over 4 transfers (21)",
-            "followups": 4, "client_side": "all refusal kinds x {fresh, after 1 transfer}", "abort_codes": "table, single bits, 0, ~0, +-1"}
+    return {"refusal_kinds": len(REFUSALS), "predecessor_histories": "length 0..2 over 8 transfers (73)",
+            "followups": 8, "client_side": "all refusal kinds x {fresh, after 1 transfer}", "abort_codes": "table, single bits, 0, ~0, +-1"}
 
 
 def cases(tier, seed):
@@ -166,6 +175,18 @@ def do_pre(sim, name, n, st, rc):
             got = sdo_client.download(send, 0x2400, 0, want, "exp")
             ok = got is None and sim.real_store().get((0x2400, 0)) == want
             sim.ref.store[(0x2400, 0)] = want
+        elif name in ("dl_rec", "dl_arr"):
+            key = (0x3000, 9) if name == "dl_rec" else (0x3100, 5)
+            want = bytes([0x20 + n, 0x22]) if name == "dl_rec" else bytes([0x30 + n, 0x33, 0x33, 0x33])
+            got = sdo_client.download(send, key[0], key[1], want, "exp")
+            ok = got is None and sim.real_store().get(key) == want
+            sim.ref.store[key] = want
+        elif name in ("ul_rec", "ul_arr"):
+            # a sibling member of the one the dl_* transfers write: always its default value
+            key = (0x3000, 10) if name == "ul_rec" else (0x3100, 6)
+            want = sim.ref.current_value(key)
+            got = sdo_client.upload(send, key[0], key[1])
+            ok = isinstance(got, bytes) and bytes(got) == want
         else:
             want = bytes([0x60 + n]) + b"-nine-by"
             got = sdo_client.download(send, 0x2402, 0, want, "seg_size")
